@@ -2616,3 +2616,266 @@ Proof.
       * intros Hs x Hx. cbn in *. apply Hs. exact Hx.
       * apply st_le_refl.
 Qed.
+
+Lemma rds_m_step rel owned d s : nofault s ->
+  exists d' s', remove_dot_segments_m rel owned d s = (true, d', s')
+    /\ erase d' = remove_dot_segments rel (erase d) /\ hstep_ok d s d' s'.
+Proof.
+  intros Hnf. destruct (remove_dot_segments_m_nf rel owned d s Hnf) as (segs' & s' & E & R & S & L).
+  exists (set_m_segs segs' d), s'. split; [exact E|]. split; [exact R|].
+  split; [intros H; apply bwf_segsub; assumption|]. split; [intros H; exact H|exact L].
+Qed.
+
+Lemma fet_m_step d s :
+  exists d' s', fix_empty_trail_m d s = (d', s')
+    /\ erase d' = fix_empty_trail_segment (erase d) /\ hstep_ok d s d' s'.
+Proof.
+  destruct (fix_empty_trail_m_nf d s) as (segs' & s' & E & R & S & L).
+  exists (set_m_segs segs' d), s'. split; [exact E|]. split; [exact R|].
+  split; [intros H; apply bwf_segsub; assumption|]. split; [intros H; exact H|exact L].
+Qed.
+
+Lemma fix_ambiguity_m_step d s : nofault s ->
+  exists d' s', fix_ambiguity_m d s = (true, d', s')
+    /\ erase d' = fix_ambiguity (erase d) /\ hstep_ok d s d' s'.
+Proof.
+  intros Hnf. unfold fix_ambiguity_m, fix_ambiguity.
+  change (absolutePath (erase d)) with (m_abs d). change (pathSegs (erase d)) with (map sg_text (m_segs d)).
+  change (is_host_set (erase d)) with (m_host_set d).
+  assert (exists d' s', (true, d, s) = (true, d', s') /\ erase d' = erase d /\ hstep_ok d s d' s') as Hsame.
+  { exists d, s. split; [reflexivity|]. split; [reflexivity|]. split; [auto|]. split; [auto|apply st_le_refl]. }
+  assert (exists d' s', (let (o, s') := alloc false SEG_SIZE s in
+                         match o with
+                         | Some id => (true, set_m_segs ({| sg_text := [46%N]; sg_blk := None; sg_node := id |} :: m_segs d) d, s')
+                         | None => (false, d, s')
+                         end) = (true, d', s')
+            /\ erase d' = set_pathSegs ([46%N] :: map sg_text (m_segs d)) (erase d) /\ hstep_ok d s d' s') as Hadd.
+  { rewrite (alloc_nf _ _ _ Hnf). eexists; eexists. split; [reflexivity|]. split; [reflexivity|].
+    split; [|split; [intros H; exact H|apply push_alloc_le]].
+    intros H. apply bwf_set_segs; [exact H|]. cbn [flat_map]. rewrite (bwf_segs_nil d H). reflexivity. }
+  destruct (m_abs d); destruct (map sg_text (m_segs d)) as [|[|c x] [|[|c2 y] r]] eqn:Em; try exact Hsame; try exact Hadd.
+  destruct (m_host_set d); [exact Hsame|exact Hadd].
+Qed.
+
+Lemma resolve_abs_flag_m_step d s : nofault s ->
+  exists d' s', resolve_abs_flag_m d s = (Some d', s')
+    /\ erase d' = resolve_abs_flag (erase d) /\ hstep_ok d s d' s'.
+Proof.
+  intros Hnf. unfold resolve_abs_flag_m, resolve_abs_flag.
+  change (absolutePath (erase d)) with (m_abs d). change (pathSegs (erase d)) with (map sg_text (m_segs d)).
+  change (is_host_set (erase d)) with (m_host_set d).
+  destruct (m_host_set d && m_abs d).
+  - destruct (m_segs d) as [|sg r] eqn:Es; cbn [map].
+    + rewrite (alloc_nf _ _ _ Hnf). eexists; eexists. split; [reflexivity|]. split; [reflexivity|].
+      split; [|split; [intros H; exact H|apply push_alloc_le]].
+      intros H. apply (bwf_upd (set_m_segs [{| sg_text := []; sg_blk := None; sg_node := ms_next s |}] d) _ 5
+                               (flat_map seg_blk [{| sg_text := []; sg_blk := None; sg_node := ms_next s |}]));
+        [apply bwf_set_segs; [exact H|reflexivity]|reflexivity|reflexivity|reflexivity].
+    + eexists; eexists. split; [reflexivity|]. split; [reflexivity|].
+      split; [|split; [intros H; exact H|apply st_le_refl]].
+      intros H. bwf_tac H.
+  - exists d, s. split; [reflexivity|]. split; [reflexivity|]. split; [auto|]. split; [auto|apply st_le_refl].
+Qed.
+
+Lemma sublist_removelast {A} (l : list A) : sublist (removelast l) l.
+Proof.
+  induction l as [|x [|y r] IH]; [constructor|repeat constructor|].
+  change (removelast (x :: y :: r)) with (x :: removelast (y :: r)). apply sl_cons. exact IH.
+Qed.
+Lemma sublist_flat_map {A B} (f : A -> list B) a b : sublist a b -> sublist (flat_map f a) (flat_map f b).
+Proof.
+  induction 1; cbn [flat_map]; [constructor| |apply sublist_app; [apply sublist_refl|assumption]].
+  eapply sublist_trans; [apply sublist_app_r|assumption].
+Qed.
+Lemma map_removelast {A B} (f : A -> B) l : map f (removelast l) = removelast (map f l).
+Proof.
+  induction l as [|x [|y r] IH]; [reflexivity|reflexivity|].
+  change (removelast (x :: y :: r)) with (x :: removelast (y :: r)). cbn [map] in *. rewrite IH. reflexivity.
+Qed.
+
+Lemma merge_path_m_step work rel s : nofault s ->
+  exists d' s', merge_path_m work rel s = (true, d', s')
+    /\ erase d' = merge_path (erase work) (erase rel) /\ hstep_ok work s d' s'.
+Proof.
+  intros Hnf. unfold merge_path_m, merge_path.
+  change (pathSegs (erase rel)) with (map sg_text (m_segs rel)).
+  destruct (m_segs rel) as [|r1 rr] eqn:Er; cbn [map].
+  - exists work, s. split; [reflexivity|]. split; [reflexivity|]. split; [auto|]. split; [auto|apply st_le_refl].
+  - assert (exists l s1, (match m_segs work with
+                          | [] => match alloc false SEG_SIZE s with
+                                  | (Some id, s') => (Some [{| sg_text := []; sg_blk := None; sg_node := id |}], s')
+                                  | (None, s') => (None, s')
+                                  end
+                          | l => (Some l, s)
+                          end) = (Some l, s1)
+              /\ map sg_text (removelast l) = removelast (map sg_text (m_segs work))
+              /\ (bwf work -> flat_map seg_blk (removelast l) = []) /\ st_le s s1) as (l & s1 & E1 & V1 & B1 & L1).
+    { destruct (m_segs work) as [|w wr] eqn:Ew.
+      - rewrite (alloc_nf _ _ _ Hnf). eexists; eexists. split; [reflexivity|]. split; [reflexivity|].
+        split; [reflexivity|apply push_alloc_le].
+      - exists (w :: wr), s. split; [reflexivity|]. split; [apply map_removelast|]. split; [|apply st_le_refl].
+        intros H. apply sublist_nil_r. rewrite <- (bwf_segs_nil work H), Ew. apply sublist_flat_map. apply sublist_removelast. }
+    rewrite E1.
+    destruct (copy_segs_nf rr [] s1 (st_le_nofault _ _ L1 Hnf)) as (more & s2 & E2 & V2 & B2 & L2).
+    rewrite E2. cbn [rev app]. eexists; eexists. split; [reflexivity|]. split; [|split; [|split]].
+    + change (erase (set_m_segs ?x work)) with (set_pathSegs (map sg_text x) (erase work)).
+      unfold erase at 1. cbn [m_scheme m_userInfo m_hostText m_ip4 m_ip6 m_ipFuture m_portText m_segs m_query m_fragment m_abs m_owner set_m_segs].
+      rewrite map_app. cbn [map sg_text]. rewrite V1, V2. reflexivity.
+    + intros H. apply bwf_set_segs; [exact H|]. rewrite flat_map_app. cbn [flat_map]. rewrite (B1 H), B2.
+      unfold seg_blk. cbn [sg_text sg_blk blk_list]. destruct (sg_text r1); reflexivity.
+    + intros H; exact H.
+    + eapply st_le_trans; eassumption.
+Qed.
+
+(* ---------------------------------------------------------------- uriAddBaseUriExMm *)
+Lemma erase_borrow_scheme t d : erase (set_m_scheme (borrow t) d) = set_scheme (t_val t) (erase d). Proof. reflexivity. Qed.
+Lemma erase_borrow_query t d : erase (set_m_query (borrow t) d) = set_query (t_val t) (erase d). Proof. reflexivity. Qed.
+Lemma erase_borrow_fragment t d : erase (set_m_fragment (borrow t) d) = set_fragment (t_val t) (erase d). Proof. reflexivity. Qed.
+Lemma erase_set_abs b d : erase (set_m_abs b d) = set_absolutePath b (erase d). Proof. reflexivity. Qed.
+
+Lemma bwf_borrow_scheme t d : bwf d -> bwf (set_m_scheme (borrow t) d).
+Proof. intros H. bwf_tac H. Qed.
+Lemma bwf_borrow_query t d : bwf d -> bwf (set_m_query (borrow t) d).
+Proof. intros H. bwf_tac H. Qed.
+Lemma bwf_borrow_fragment t d : bwf d -> bwf (set_m_fragment (borrow t) d).
+Proof. intros H. bwf_tac H. Qed.
+Lemma bwf_set_abs b d : bwf d -> bwf (set_m_abs b d).
+Proof. intros H. bwf_tac H. Qed.
+
+(* the common end: uriFixEmptyTrailSegment, then the fragment of the reference *)
+Lemma finish_step fr d s :
+  exists d' s', (let '(d0, s0) := fix_empty_trail_m d s in (URI_SUCCESS, set_m_fragment (borrow fr) d0, s0)) = (URI_SUCCESS, d', s')
+    /\ erase d' = set_fragment (t_val fr) (fix_empty_trail_segment (erase d)) /\ hstep_ok d s d' s'.
+Proof.
+  destruct (fet_m_step d s) as (d1 & s1 & E1 & R1 & K1 & H1 & L1). rewrite E1.
+  eexists; eexists. split; [reflexivity|]. split; [rewrite erase_borrow_fragment, R1; reflexivity|].
+  split; [intros H; apply bwf_borrow_fragment; auto|]. split; [intros H; apply H1; exact H|exact L1].
+Qed.
+
+Definition add_base_post (rel base : muri) (s : mstate) (res : N * muri * mstate) (pure : N * uri) : Prop :=
+  let '(rc, d, s') := res in
+  rc = fst pure /\ erase d = snd pure /\ bwf d /\ (mwf_host rel -> mwf_host base -> mwf_host d) /\ st_le s s'.
+
+Ltac pure_eq := unfold remove_dot_segments_absolute; change (erase muri_empty) with empty_uri; reflexivity.
+
+Lemma add_base_impl_m_nf compat rel base s : nofault s ->
+  add_base_post rel base s (add_base_impl_m compat rel base s) (add_base_impl compat (erase rel) (erase base)).
+Proof.
+  intros Hnf. unfold add_base_impl_m, add_base_impl.
+  change (scheme (erase base)) with (t_val (m_scheme base)).
+  change (scheme (erase rel)) with (t_val (m_scheme rel)).
+  destruct (t_val (m_scheme base)) as [sb|] eqn:Esb.
+  2:{ unfold add_base_post. cbn [fst snd]. split; [reflexivity|]. split; [reflexivity|]. split; [apply bwf_empty|].
+      split; [intros _ _ x Hx; discriminate Hx|apply st_le_refl]. }
+  cbv zeta.
+  assert ((is_some (t_val (m_scheme rel)) && negb (compat && is_some (t_val (m_scheme rel)) && range_eqb (Some sb) (t_val (m_scheme rel))))
+          = (is_some (t_val (m_scheme rel)) && negb (compat && range_eqb (Some sb) (t_val (m_scheme rel))))) as Hrs.
+  { destruct (is_some (t_val (m_scheme rel))); [rewrite andb_true_r; reflexivity|reflexivity]. }
+  rewrite Hrs. clear Hrs.
+  change (is_host_set (erase rel)) with (m_host_set rel).
+  change (pathSegs (erase rel)) with (map sg_text (m_segs rel)).
+  change (absolutePath (erase rel)) with (m_abs rel).
+  change (query (erase rel)) with (t_val (m_query rel)).
+  change (query (erase base)) with (t_val (m_query base)).
+  change (fragment (erase rel)) with (t_val (m_fragment rel)).
+  destruct (is_some (t_val (m_scheme rel)) && negb (compat && range_eqb (Some sb) (t_val (m_scheme rel)))).
+  - (* the reference has its own scheme *)
+    set (d0 := set_m_scheme (borrow (m_scheme rel)) muri_empty).
+    assert (bwf d0) as K0 by (apply bwf_borrow_scheme, bwf_empty).
+    destruct (copy_authority_m_nf d0 rel s Hnf) as (d1 & s1 & E1 & R1 & K1 & H1 & L1). rewrite E1. cbv beta iota. cbn [negb].
+    pose proof (st_le_nofault _ _ L1 Hnf) as N1.
+    destruct (copy_path_m_nf d1 rel s1 N1) as (d2 & s2 & E2 & R2 & K2 & H2 & L2). rewrite E2. cbv beta iota. cbn [negb].
+    pose proof (st_le_nofault _ _ L2 N1) as N2.
+    destruct (rds_m_step false (m_owner d2) d2 s2 N2) as (d3 & s3 & E3 & R3 & K3 & H3 & L3). rewrite E3. cbv beta iota. cbn [negb].
+    pose proof (st_le_nofault _ _ L3 N2) as N3.
+    destruct (fix_ambiguity_m_step d3 s3 N3) as (d4 & s4 & E4 & R4 & K4 & H4 & L4). rewrite E4. cbv beta iota. cbn [negb].
+    destruct (finish_step (m_fragment rel) (set_m_query (borrow (m_query rel)) d4) s4) as (d5 & s5 & E5 & R5 & K5 & H5 & L5).
+    rewrite E5. unfold add_base_post. cbn [fst snd]. split; [reflexivity|]. split; [|split; [|split]].
+    + rewrite R5, erase_borrow_query, R4, R3, R2, R1. pure_eq.
+    + apply K5, bwf_borrow_query, K4, K3, K2, K1, K0.
+    + intros Hr _. apply H5. apply H4, H3, H2, H1, Hr.
+    + eapply st_le_trans; [exact L1|]. eapply st_le_trans; [exact L2|]. eapply st_le_trans; [exact L3|].
+      eapply st_le_trans; [exact L4|exact L5].
+  - destruct (m_host_set rel).
+    + (* network-path reference *)
+      destruct (copy_authority_m_nf muri_empty rel s Hnf) as (d1 & s1 & E1 & R1 & K1 & H1 & L1). rewrite E1. cbv beta iota. cbn [negb].
+      pose proof (st_le_nofault _ _ L1 Hnf) as N1.
+      destruct (copy_path_m_nf d1 rel s1 N1) as (d2 & s2 & E2 & R2 & K2 & H2 & L2). rewrite E2. cbv beta iota. cbn [negb].
+      pose proof (st_le_nofault _ _ L2 N1) as N2.
+      destruct (rds_m_step false (m_owner d2) d2 s2 N2) as (d3 & s3 & E3 & R3 & K3 & H3 & L3). rewrite E3. cbv beta iota. cbn [negb].
+      destruct (finish_step (m_fragment rel) (set_m_scheme (borrow (m_scheme base)) (set_m_query (borrow (m_query rel)) d3)) s3)
+        as (d5 & s5 & E5 & R5 & K5 & H5 & L5).
+      rewrite E5. unfold add_base_post. cbn [fst snd]. split; [reflexivity|]. split; [|split; [|split]].
+      * rewrite R5, erase_borrow_scheme, erase_borrow_query, R3, R2, R1, Esb. pure_eq.
+      * apply K5, bwf_borrow_scheme, bwf_borrow_query, K3, K2, K1, bwf_empty.
+      * intros Hr _. apply H5. apply H3, H2, H1, Hr.
+      * eapply st_le_trans; [exact L1|]. eapply st_le_trans; [exact L2|]. eapply st_le_trans; [exact L3|exact L5].
+    + destruct (copy_authority_m_nf muri_empty base s Hnf) as (d1 & s1 & E1 & R1 & K1 & H1 & L1). rewrite E1. cbv beta iota. cbn [negb].
+      pose proof (st_le_nofault _ _ L1 Hnf) as N1.
+      assert (forall (A : Type) (x y : A), match m_segs rel, m_abs rel with [], false => x | _, _ => y end
+                = match map sg_text (m_segs rel), m_abs rel with [], false => x | _, _ => y end) as Hm
+        by (intros; destruct (m_segs rel); reflexivity).
+      rewrite Hm. clear Hm.
+      destruct (map sg_text (m_segs rel)) as [|t1 tr] eqn:Esr.
+      * destruct (m_abs rel) eqn:Ea.
+        -- (* absolute, no segment *)
+           destruct (copy_path_m_nf d1 rel s1 N1) as (d2 & s2 & E2 & R2 & K2 & H2 & L2). rewrite E2. cbv beta iota. cbn [negb].
+           pose proof (st_le_nofault _ _ L2 N1) as N2.
+           destruct (resolve_abs_flag_m_step d2 s2 N2) as (d3 & s3 & E3 & R3 & K3 & H3 & L3). rewrite E3.
+           pose proof (st_le_nofault _ _ L3 N2) as N3.
+           destruct (rds_m_step false (m_owner d3) d3 s3 N3) as (d4 & s4 & E4 & R4 & K4 & H4 & L4). rewrite E4. cbv beta iota. cbn [negb].
+           pose proof (st_le_nofault _ _ L4 N3) as N4.
+           destruct (fix_ambiguity_m_step d4 s4 N4) as (d5 & s5 & E5 & R5 & K5 & H5 & L5). rewrite E5. cbv beta iota. cbn [negb].
+           destruct (finish_step (m_fragment rel) (set_m_scheme (borrow (m_scheme base)) (set_m_query (borrow (m_query rel)) d5)) s5)
+             as (d6 & s6 & E6 & R6 & K6 & H6 & L6).
+           rewrite E6. unfold add_base_post. cbn [fst snd]. split; [reflexivity|]. split; [|split; [|split]].
+           ++ rewrite R6, erase_borrow_scheme, erase_borrow_query, R5, R4, R3, R2, R1, Esb. pure_eq.
+           ++ apply K6, bwf_borrow_scheme, bwf_borrow_query, K5, K4, K3, K2, K1, bwf_empty.
+           ++ intros _ Hb. apply H6. apply H5, H4, H3, H2, H1, Hb.
+           ++ eapply st_le_trans; [exact L1|]. eapply st_le_trans; [exact L2|]. eapply st_le_trans; [exact L3|].
+              eapply st_le_trans; [exact L4|]. eapply st_le_trans; [exact L5|exact L6].
+        -- (* empty path: the base path, the query of the reference if it has one *)
+           destruct (copy_path_m_nf d1 base s1 N1) as (d2 & s2 & E2 & R2 & K2 & H2 & L2). rewrite E2. cbv beta iota. cbn [negb].
+           destruct (finish_step (m_fragment rel)
+                       (set_m_scheme (borrow (m_scheme base))
+                          (set_m_query (borrow (match t_val (m_query rel) with Some _ => m_query rel | None => m_query base end)) d2)) s2)
+             as (d6 & s6 & E6 & R6 & K6 & H6 & L6).
+           rewrite E6. unfold add_base_post. cbn [fst snd]. split; [reflexivity|]. split; [|split; [|split]].
+           ++ rewrite R6, erase_borrow_scheme, erase_borrow_query, R2, R1, Esb.
+              destruct (t_val (m_query rel)) eqn:Eq; [rewrite Eq|]; pure_eq.
+           ++ apply K6, bwf_borrow_scheme, bwf_borrow_query, K2, K1, bwf_empty.
+           ++ intros _ Hb. apply H6. apply H2, H1, Hb.
+           ++ eapply st_le_trans; [exact L1|]. eapply st_le_trans; [exact L2|exact L6].
+      * destruct (m_abs rel) eqn:Ea.
+        -- destruct (copy_path_m_nf d1 rel s1 N1) as (d2 & s2 & E2 & R2 & K2 & H2 & L2). rewrite E2. cbv beta iota. cbn [negb].
+           pose proof (st_le_nofault _ _ L2 N1) as N2.
+           destruct (resolve_abs_flag_m_step d2 s2 N2) as (d3 & s3 & E3 & R3 & K3 & H3 & L3). rewrite E3.
+           pose proof (st_le_nofault _ _ L3 N2) as N3.
+           destruct (rds_m_step false (m_owner d3) d3 s3 N3) as (d4 & s4 & E4 & R4 & K4 & H4 & L4). rewrite E4. cbv beta iota. cbn [negb].
+           pose proof (st_le_nofault _ _ L4 N3) as N4.
+           destruct (fix_ambiguity_m_step d4 s4 N4) as (d5 & s5 & E5 & R5 & K5 & H5 & L5). rewrite E5. cbv beta iota. cbn [negb].
+           destruct (finish_step (m_fragment rel) (set_m_scheme (borrow (m_scheme base)) (set_m_query (borrow (m_query rel)) d5)) s5)
+             as (d6 & s6 & E6 & R6 & K6 & H6 & L6).
+           rewrite E6. unfold add_base_post. cbn [fst snd]. split; [reflexivity|]. split; [|split; [|split]].
+           ++ rewrite R6, erase_borrow_scheme, erase_borrow_query, R5, R4, R3, R2, R1, Esb. pure_eq.
+           ++ apply K6, bwf_borrow_scheme, bwf_borrow_query, K5, K4, K3, K2, K1, bwf_empty.
+           ++ intros _ Hb. apply H6. apply H5, H4, H3, H2, H1, Hb.
+           ++ eapply st_le_trans; [exact L1|]. eapply st_le_trans; [exact L2|]. eapply st_le_trans; [exact L3|].
+              eapply st_le_trans; [exact L4|]. eapply st_le_trans; [exact L5|exact L6].
+        -- (* merge with the base path *)
+           destruct (copy_path_m_nf d1 base s1 N1) as (d2 & s2 & E2 & R2 & K2 & H2 & L2). rewrite E2. cbv beta iota. cbn [negb].
+           pose proof (st_le_nofault _ _ L2 N1) as N2.
+           destruct (merge_path_m_step d2 rel s2 N2) as (d3 & s3 & E3 & R3 & K3 & H3 & L3). rewrite E3. cbv beta iota. cbn [negb].
+           pose proof (st_le_nofault _ _ L3 N2) as N3.
+           destruct (rds_m_step false (m_owner d3) d3 s3 N3) as (d4 & s4 & E4 & R4 & K4 & H4 & L4). rewrite E4. cbv beta iota. cbn [negb].
+           pose proof (st_le_nofault _ _ L4 N3) as N4.
+           destruct (fix_ambiguity_m_step d4 s4 N4) as (d5 & s5 & E5 & R5 & K5 & H5 & L5). rewrite E5. cbv beta iota. cbn [negb].
+           destruct (finish_step (m_fragment rel) (set_m_scheme (borrow (m_scheme base)) (set_m_query (borrow (m_query rel)) d5)) s5)
+             as (d6 & s6 & E6 & R6 & K6 & H6 & L6).
+           rewrite E6. unfold add_base_post. cbn [fst snd]. split; [reflexivity|]. split; [|split; [|split]].
+           ++ rewrite R6, erase_borrow_scheme, erase_borrow_query, R5, R4, R3, R2, R1, Esb. pure_eq.
+           ++ apply K6, bwf_borrow_scheme, bwf_borrow_query, K5, K4, K3, K2, K1, bwf_empty.
+           ++ intros _ Hb. apply H6. apply H5, H4, H3, H2, H1, Hb.
+           ++ eapply st_le_trans; [exact L1|]. eapply st_le_trans; [exact L2|]. eapply st_le_trans; [exact L3|].
+              eapply st_le_trans; [exact L4|]. eapply st_le_trans; [exact L5|exact L6].
+Qed.
